@@ -972,8 +972,27 @@ func countOutLeaves(os []*Obs, n map[string]int) {
 }
 
 // TryReplay turns the model of a failed obligation into a run of the real function.
-func TryReplay(P *Program, db *SpecDB, id string, o *Obligation) *ReplayResult {
-	rr := &ReplayResult{}
+func pkgOf(fn *ssa.Function) *types.Package {
+	if fn.Pkg != nil {
+		return fn.Pkg.Pkg
+	}
+	if o := fn.Origin(); o != nil && o.Pkg != nil {
+		return o.Pkg.Pkg // instance of a generic function
+	}
+	if ob := fn.Object(); ob != nil {
+		return ob.Pkg()
+	}
+	return nil
+}
+
+func TryReplay(P *Program, db *SpecDB, id string, o *Obligation) (rr *ReplayResult) {
+	rr = &ReplayResult{}
+	defer func() {
+		// a replay is an extra: a failure inside it must never change the verdict
+		if r := recover(); r != nil {
+			rr = &ReplayResult{Note: fmt.Sprint("replay generator failed: ", r)}
+		}
+	}()
 	ri := o.Replay
 	if ri == nil || ri.Fn == nil {
 		rr.Note = "no replay: this obligation is not about one run of a function from its entry (lemma, loop-invariant step or call-site precondition)"
@@ -1041,7 +1060,7 @@ search:
 		fillValues(vals, ob)
 	}
 	fn := ri.Fn
-	g := &goGen{pkg: fn.Pkg.Pkg, imports: map[string]string{"fmt": "fmt", "testing": "testing"}, ptrs: map[string]string{},
+	g := &goGen{pkg: pkgOf(fn), imports: map[string]string{"fmt": "fmt", "testing": "testing"}, ptrs: map[string]string{},
 		sliceRef: map[string]string{}, strs: map[string]string{}, bv: ri.BV}
 	for _, s := range consts {
 		if v, ok := vals[ri.StrConsts[s]]; ok {
@@ -1152,10 +1171,10 @@ search:
 	sort.Strings(imps)
 	testName := "TestGovcReplay"
 	src := fmt.Sprintf("package %s\n\nimport (\n\t%s\n)\n\n// generated by govc from the counterexample of obligation\n//   %s\nfunc %s(t *testing.T) {\n%s}\n",
-		fn.Pkg.Pkg.Name(), strings.Join(imps, "\n\t"), o.Name, testName, body.String())
+		pkgOf(fn).Name(), strings.Join(imps, "\n\t"), o.Name, testName, body.String())
 	rr.TestSource = src
 	rr.TestName = testName
-	rr.Package = strings.TrimPrefix(strings.TrimPrefix(fn.Pkg.Pkg.Path(), modulePath), "/")
+	rr.Package = strings.TrimPrefix(strings.TrimPrefix(pkgOf(fn).Path(), modulePath), "/")
 	if confirmed {
 		rr.Predicted = map[string]string{}
 		for _, ob := range ri.Out {
